@@ -32,9 +32,9 @@ const (
 func init() {
 	driver.Register(&driver.Engine{
 		ID: "C16", Level: "exploration",
-		Rule: "Each case is one generated module (PRNG from seed and case index): a chain of 1-8 Starlark frames (module code, top-level defs, nested defs/closures, lambdas, " +
-			"functions fetched from containers) entered by direct calls (CALL, CALL_KW, CALL_VAR, CALL_VAR_KW) or through built-in callbacks (sorted/min/max key=, host apply, nested apply, a host " +
-			"callable with its own Position), ending in one planted failing operation of 27 kinds; the call/failing token of every frame is placed under independently drawn extremes " +
+		Rule: "Each case is one generated program of one or two modules (PRNG from seed and case index): a chain of 1-8 Starlark frames (module code, top-level defs, nested defs/closures, lambdas, " +
+			"functions fetched from containers, functions loaded from a second module, the module code of a loaded module) entered by direct calls (CALL, CALL_KW, CALL_VAR, CALL_VAR_KW), through " +
+			"built-in callbacks (sorted/min/max key=, host apply, nested apply, a host callable with its own Position) or by a load statement, ending in one planted failing operation of 27 kinds; the call/failing token of every frame is placed under independently drawn extremes " +
 			"(line gaps 0-100 000 before the statement, its enclosing control statement, the def and the first body statement; 0-5 000 preceding statements, also inside if/for/while bodies " +
 			"so that blocks are laid out of source order; column padding 0-10 000 runes by string literals with multi-byte runes, triple-quoted multi-line strings or thousands of constants; " +
 			"random layouts with continuations, bracket line breaks, comments). The expected stack is read from the position fields gen.Render wrote into the tree. Every program is judged twice: " +
@@ -178,7 +178,7 @@ func (w *want) file() string {
 
 func run(c *driver.Ctx) {
 	runtime.GOMAXPROCS(2)
-	debug.SetGCPercent(200)
+	debug.SetGCPercent(400)
 	n := c.Pick(2_000, 150_000)
 	for i := 0; i < n; i++ {
 		if !c.Take() {
